@@ -77,6 +77,18 @@ pub fn arbitrary_one(cx: &mut Cx, s: &str) {
                     continue;
                 }
                 let got = RPos::observe(&b);
+                // the board handed out must be a complete board of that position: its checkers and
+                // pins are part of what `Board == Board` observes
+                if super::bb_squares(b.checkers()) != got.checkers() || super::bb_squares(b.pinned()) != got.pinned() {
+                    viol(
+                        cx,
+                        format!("decoded-board-derived-state|{}", parser.name()),
+                        format!("{} read {:?}: checkers {} / pinned {} but the position has checkers {} / pinned {}", parser.name(), s,
+                            super::squares_text(&super::bb_squares(b.checkers())), super::squares_text(&super::bb_squares(b.pinned())),
+                            super::squares_text(&got.checkers()), super::squares_text(&got.pinned())),
+                        s,
+                    );
+                }
                 let decoded: Vec<RPos> = match parser {
                     Parser::Plain => decode_fen(s, Notation::Plain).ok().into_iter().collect(),
                     Parser::Shredder => decode_fen(s, Notation::Shredder).ok().into_iter().collect(),
@@ -385,7 +397,12 @@ pub fn run(cfg: &Cfg) -> Result<Outcome, String> {
         let mut seeds: Vec<String> = Vec::new();
         for i in 0..n {
             if seeds.len() < 64 || i % 50 == 0 {
-                let p = if i % 3 == 0 { gen::scatter(&mut cx.rng) } else { gen::sound_random(&mut cx.rng) };
+                let p = match i % 6 {
+                    0 | 3 => gen::scatter(&mut cx.rng),
+                    1 => gen::special_class_case2(&mut cx.rng).0,
+                    2 => gen::pin_case(&mut cx.rng),
+                    _ => gen::sound_random(&mut cx.rng),
+                };
                 let s = write_fen(&p, cx.rng.chance(1, 2));
                 if seeds.len() < 64 {
                     seeds.push(s);
@@ -490,6 +507,46 @@ pub fn run(cfg: &Cfg) -> Result<Outcome, String> {
                 for t in subs {
                     arbitrary_one(cx, &t);
                     cx.count("alias-substituted-records");
+                }
+            }
+        }
+        // every two-byte UTF-8 character (and a sample of three-byte ones) in place of every span of one
+        // or two placement symbols: parsers that look at bytes instead of characters alias them to ASCII
+        let n_rec2 = if cx.miri { 0 } else { cx.budget(16 * 2, 16 * 12) };
+        for _ in 0..n_rec2 {
+            let mut p = gen::sound_random(&mut cx.rng);
+            // make sure there is an empty rank
+            let er = cx.rng.range(2, 5) as i32;
+            for f in 0..8 {
+                if !matches!(p.sq[idx(f, er)], Some((_, Piece::King))) {
+                    p.sq[idx(f, er)] = None;
+                }
+            }
+            p.ep = None;
+            if p.structurally_sound().is_err() {
+                continue;
+            }
+            let rec = write_fen(&p, true);
+            let cs: Vec<char> = rec.chars().collect();
+            let pl_len = rec.split(' ').next().unwrap().chars().count();
+            for start in 0..pl_len {
+                for span in 1..=2usize {
+                    if start + span > pl_len || cs[start..start + span].contains(&'/') {
+                        continue;
+                    }
+                    let lo = 0x80u32;
+                    let step3 = 0x800 + cx.rng.below(37) as u32;
+                    let candidates = (lo..0x800).chain((step3..0x10000).step_by(37));
+                    for v in candidates {
+                        if let Some(ch) = char::from_u32(v) {
+                            let mut t: Vec<char> = cs[..start].to_vec();
+                            t.push(ch);
+                            t.extend_from_slice(&cs[start + span..]);
+                            let text: String = t.into_iter().collect();
+                            arbitrary_one(cx, &text);
+                            cx.count("multibyte-span-substitutions");
+                        }
+                    }
                 }
             }
         }
